@@ -84,12 +84,13 @@ class Scenario:
         if not xa:
             return None
         p = os.path.join(self.dir, "xattr.txt")
-        with open(p, "w") as f:
-            for path, kv in xa.items():
-                f.write("# file: %s\n" % path)
-                for k, v in kv.items():
-                    f.write("%s=0x%s\n" % (k, v.hex()))
-                f.write("\n")
+        txt = ""
+        for path, kv in xa.items():
+            txt += "# file: %s\n" % path
+            for k, v in kv.items():
+                txt += "%s=0x%s\n" % (k, v.hex())
+            txt += "\n"
+        _write_atomic(p, txt)
         return p
 
     def expected(self):
@@ -114,9 +115,17 @@ class Scenario:
 
     def packfile(self):
         p = os.path.join(self.dir, "pack.txt")
-        with open(p, "w") as f:
-            f.write("\n".join(self.lines) + "\n")
+        _write_atomic(p, "\n".join(self.lines) + "\n")
         return p
+
+
+def _write_atomic(p, txt):
+    """callers pack one scenario from several threads: never expose a half-written file"""
+    import threading
+    tmp = "%s.%d.%d" % (p, os.getpid(), threading.get_ident())
+    with open(tmp, "w") as f:
+        f.write(txt)
+    os.replace(tmp, p)
 
 
 def q(path):
@@ -147,6 +156,10 @@ def standard_scenarios(work, rng, bs=4096, count=6):
     s.add_file("/e", d[:bs] + content(rng, "random", bs))
     out.append(s)
     s = Scenario(work, "s_sparse")
+    s.add_file("/a_first", content(rng, "random", 2 * bs))
+    s.add_file("/lead_hole", b"\0" * bs + content(rng, "random", 2 * bs) + b"tail")
+    s.add_file("/lead_hole2", b"\0" * (2 * bs) + content(rng, "text", bs))
+    s.add_file("/mid_hole", content(rng, "text", bs) + b"\0" * bs + content(rng, "random", bs + 9))
     s.add_file("/sp", b"\0" * bs + content(rng, "text", bs) + b"\0" * (2 * bs) + b"end")
     s.add_file("/z", b"\0" * (3 * bs))
     s.add_file("/empty", b"")
